@@ -567,6 +567,9 @@ class DatasetBuilder:
                     assert etbl is not None
                     col = remove.column(cname)
                     id_col = etbl.column(cname)
+                    if pa.types.is_null(col.type):
+                        # an empty removal frame has no inferable ID type
+                        col = col.cast(id_col.type)
                     nums = pc.index_in(col, id_col)
                     rtbl_cols[num_col] = nums
                 elif cname.endswith("_num"):
